@@ -231,6 +231,66 @@ def roundtrip_sim_case(seed, tid):
             "sig": sig, "seed": seed, "sim": True, "duration": repr(duration)}
 
 
+def roundtrip_cli_case(seed, tid):
+    """The same comparison through the COMMAND LINE: `eudoxia run P` versus `eudoxia gentrace P F` + `eudoxia run P -w F`, with the parameter
+    file on disk.  run_command's call of run_simulator is the only thing replaced - by the recorder, which calls the real one."""
+    import os
+    from . import simrec
+    import eudoxia.__main__ as cli_mod
+    rng = random.Random(seed)
+    tps = rng.choice([1, 3, 5, 7, 10, 25, 60, 75, 77, 91, 93, 99, 100, 128, 1000, rng.randint(2, 100)])
+    ticks = rng.randint(3, 200)
+    duration = rng.choice([ticks / tps, float(F(ticks, tps)), rng.choice([0.6, 1.2, 3, 2.4, 0.3, 7])])
+    d = str(common.scratch())
+    pfile, tfile = f"{d}/p{tid}.toml", f"{d}/t{tid}.csv"
+    keys = [("duration", repr(float(duration))), ("ticks_per_second", str(tps)), ("waiting_seconds_mean", repr(float(F(rng.choice([1, 1, 2, 5]), tps)))),
+            ("num_pipelines", str(rng.choice([1, 2, 3]))), ("num_operators", str(rng.choice([1, 1, 3]))), ("random_seed", str(rng.randrange(10**6))),
+            ("scheduler_algo", '"naive"'), ("num_pools", "1"), ("cpus_per_pool", "4"), ("ram_gb_per_pool", "64")]
+    rng.shuffle(keys)
+    with open(pfile, "w") as f:
+        f.write("".join(f"{k} = {v}\n" for k, v in keys))
+    runs = []
+    real = cli_mod.run_simulator
+
+    def recording(params, workload=None):
+        ev, st, ex = simrec.record_run(dict(params), tid=tid, workload=workload, mode="obs", U=1000, sparse=True)
+        runs.append(ev)
+        if ex is not None:
+            raise ex
+        return st
+    cli_mod.run_simulator = recording
+    try:
+        c1, _ = common.cli(["run", pfile])
+        c2, out2 = common.cli(["gentrace", pfile, tfile, "-f"])
+        c3, _ = common.cli(["run", pfile, "-w", tfile])
+    finally:
+        cli_mod.run_simulator = real
+    arr = lambda events: [[e["t"], len(e["wl"]["ops"]), e["wl"]["prio"]] for e in events if e["ev"] == "arrive"]
+    a1 = arr(runs[0]) if len(runs) >= 1 else []
+    a2 = arr(runs[1]) if len(runs) >= 2 else []
+    written = []
+    if os.path.exists(tfile):
+        import csv as _csv
+        with open(tfile, newline="") as f:
+            written = [float(r["arrival_seconds"]) for r in _csv.DictReader(f) if r["arrival_seconds"].strip()]
+    sig = []
+    lastgen = int(float(duration) * tps) - 1
+    for i in range(len(a1)):
+        late = (a2[i][0] - a1[i][0]) if i < len(a2) else -99
+        fl = written[i] / (1.0 / tps) if i < len(written) else 0.0
+        wexpr = 1 if i < len(written) and written[i] == a1[i][0] * (1.0 / tps) else 0
+        if late == -99 and i < len(written) and wexpr and fl > a1[i][0] and a1[i][0] == lastgen:
+            late = 1
+        sig.append([late, 1 if fl > a1[i][0] else 0, wexpr])
+    for fn in (pfile, tfile):
+        if os.path.exists(fn):
+            os.unlink(fn)
+    ok = (c1, c2, c3) == (0, 0, 0) and len(runs) == 2
+    return {"kind": "roundtrip", "tid": tid, "tps": tps, "gen": [x[0] for x in a1] if ok else [0], "seed": seed, "sim": True, "cli": True,
+            "replay": ([x[0] for x in a2][:len(a1)] + [-1] * max(0, len(a1) - len(a2))) if ok else [-7], "sig": sig if ok else [[-99, 0, 0]],
+            "duration": repr(duration), "exit_codes": [c1, c2, c3]}
+
+
 def _chunk(args):
     kind, seed, tid0, n = args
     common.import_repo()
@@ -239,8 +299,10 @@ def _chunk(args):
     for i in range(n):
         if kind == "replay":
             out.append([run_case(make_case(rng), tid0 + i)])
-        elif i % 2:
+        elif i % 4 == 1:
             out.append([roundtrip_sim_case(rng.randrange(2**31), tid0 + i)])
+        elif i % 4 == 3:
+            out.append([roundtrip_cli_case(rng.randrange(2**31), tid0 + i)])
         else:
             out.append([roundtrip_case(rng.randrange(2**31), tid0 + i)])
     return out
